@@ -7,7 +7,8 @@ package thriftudp
 // Scenarios: (1) messages of 1, 2, 100, 1432, 8000 and 64999..65000 bytes written in one to
 // three pieces (Write / WriteString / WriteByte) and flushed: one datagram each with exactly
 // those bytes, buffer empty afterwards; (2) a Flush that fails (expired write deadline)
-// leaves the buffer empty and the next message arrives complete and alone; (3) a single
+// leaves the buffer empty and the next message arrives complete and alone, and so does a
+// Flush towards a destination that went away (connection refused); (3) a single
 // write beyond the maximum length on an empty buffer is refused with an error, nothing is
 // sent, the next message arrives alone (the case "refused after an accepted prefix" is the
 // KNOWN FINDING of this property and is printed as DRIVER-KNOWN, not as a failure); (4) the
@@ -146,6 +147,24 @@ func TestVerifDriverC15(t *testing.T) {
 		fail("Flush after a failed Flush: %v", err)
 	}
 	expectOne("the message after a failed Flush", after)
+	// (2b) a destination that went away: the ICMP error of one datagram surfaces as
+	// "connection refused" on a later Flush; whatever Flush returns, nothing stays buffered
+	if gone, err := vdC15NewSink(); err == nil {
+		tr2, err := NewTUDPClientTransport(gone.conn.LocalAddr().String(), "")
+		gone.conn.Close()
+		if err == nil {
+			for i := 0; i < 4; i++ {
+				tr2.Write(vdC15Msg(700+i, byte(0x60+i)))
+				ferr := tr2.Flush()
+				if tr2.writeBuf.Len() != 0 {
+					fail("destination gone: after Flush %d (error: %v) the buffer still holds %d bytes", i, ferr, tr2.writeBuf.Len())
+					break
+				}
+				time.Sleep(20 * time.Millisecond)
+			}
+			tr2.Close()
+		}
+	}
 	// (3) an oversize single write on an empty buffer
 	if _, err := tr.Write(vdC15Msg(MaxLength+1, 3)); err == nil {
 		fail("Write of %d bytes was accepted", MaxLength+1)
